@@ -266,6 +266,10 @@ pub fn fingerprint(node: &Node) -> Vec<(String, String)> {
     {
         let tr = node.get_tracker();
         out.push(("tracker".to_string(), format!("tip={} height={} headers={}", tr.tip().0.block_hash(), tr.height(), tr.headers.len())));
+        // the tracker as it would be stored: headers, and per listener the whole monitor state
+        // (funding inputs, heights, closing outpoints, flags) and its watches
+        let entry = vls_persist::model::ChainTrackerEntry::from(&*tr);
+        out.push(("tracker_entry".to_string(), serde_json::to_string(&entry).unwrap_or_default()));
     }
     let chans: Vec<_> = { node.get_channels().iter().map(|(k, v)| (k.clone(), v.clone())).collect() };
     for (id, slot) in chans {
